@@ -85,6 +85,9 @@ fn one(entry: &str) -> Option<Vec<u8>> {
         "array_gen32" => <[u8; 32] as NewByteArray<32>>::gen().to_vec(),
         "vec_gen32" => <Vec<u8> as NewByteArray<32>>::gen(),
         "vec_gen8" => <Vec<u8> as NewByteArray<8>>::gen(),
+        "stack_gen8" => StackByteArray::<8>::gen().to_vec(),
+        "stack_gen5" => StackByteArray::<5>::gen().to_vec(),
+        "array_gen7" => <[u8; 7] as NewByteArray<7>>::gen().to_vec(),
         "keypair_gen" => {
             let k = dryoc::keypair::StackKeyPair::gen();
             [k.secret_key.to_vec(), k.public_key.to_vec()].concat()
